@@ -264,7 +264,7 @@ def gen(rng, tier):
     cases = []
 
     # --- A. single requests: well-formed, mutated, and every prefix
-    nbase = 60 if quick else 600
+    nbase = 60 if quick else 1500
     for i in range(nbase):
         s = wellformed(rng, small=(i % 3 != 0))
         c = ["req " + hexs(s)]
@@ -327,7 +327,7 @@ def gen(rng, tier):
     cases.append(c)
 
     # --- B. server loop: pipelined requests
-    nsrv = 80 if quick else 800
+    nsrv = 80 if quick else 2000
     for i in range(nsrv):
         k = rng.randrange(1, 6)
         parts = []
@@ -372,7 +372,7 @@ def gen(rng, tier):
     for i in range(0, len(tg), 500):
         cases.append(["tg " + hexs(t) for t in tg[i:i + 500]])
     c = []
-    for i in range(3000 if quick else 60000):
+    for i in range(3000 if quick else 200000):
         n = rng.randrange(1, 40)
         k = rng.randrange(4)
         if k == 0:
@@ -403,7 +403,7 @@ def gen(rng, tier):
             if len(c) == 1000:
                 cases.append(c)
                 c = []
-    for i in range(2000 if quick else 40000):
+    for i in range(2000 if quick else 100000):
         k = rng.randrange(3)
         if k == 0:
             u = bytes(rng.choice(b":/[]@?#%ab1.-") for _ in range(rng.randrange(0, 30)))
@@ -419,7 +419,7 @@ def gen(rng, tier):
             cases.append(c)
             c = []
     # --- F. percent-decoding of arbitrary text
-    for i in range(3000 if quick else 40000):
+    for i in range(3000 if quick else 100000):
         k = rng.randrange(3)
         if k == 0:
             t = bytes(rng.choice(b"%%%0123456789abcdefABCDEFgxX+- z") for _ in range(rng.randrange(0, 24)))
@@ -445,7 +445,7 @@ def gen(rng, tier):
               b"Range: bytes=3-3\r\n", b"Range: bytes=-\r\n", b"Range: bytes=\r\n", b"Range: bytes=a-b\r\n", b"Range: bytes=1-2,4-5\r\n", b"Range: lines=1-2\r\n",
               b"Range: bytes=99999999999-\r\n", b"Range: bytes=--1\r\n", b"Range:bytes=1-2\r\n", b"If-Modified-Since: Sat, 26 Sep 2026 10:00:00 GMT\r\n",
               b"If-Modified-Since: garbage\r\n", b"If-Modified-Since: 9999-99-99\r\n", b"If-Modified-Since: Mon, 01 Jan 1990 00:00:00 GMT\r\n"]
-    for i in range(300 if quick else 4000):
+    for i in range(300 if quick else 10000):
         reqs = b""
         for _ in range(rng.randrange(1, 4)):
             p = rng.choice(fpaths) if rng.random() < 0.8 else rtarget(rng)
@@ -509,7 +509,7 @@ EXHAUSTIVE = {"quick": "all %d request targets over the tokens {. / %%2e %%2f %%
 REFERENCE_NAME = "python3 re/urllib/bytes.replace reference parser for well-formed requests, targets and escapes"
 
 _TOKEN = rb"[!#$%&'*+\-.^_`|~0-9A-Za-z]+"
-_VALID_ESC = re.compile(rb"^(?:[^%\x00 ?#]|%(?!00)[0-9a-fA-F]{2})*$")
+_VALID_ESC = re.compile(rb"^(?:[^%\x00 ?#]|%(?!00)[0-9a-fA-F]{2})*\Z")
 
 
 def _ref_path(raw):
@@ -549,11 +549,11 @@ def _ref_query(qs):
         return "-"
     d = {}
     for pair in qs.split(b"&"):
-        m = re.match(rb"^([^=&]+)=([^=&]*)$", pair)
+        m = re.match(rb"^([^=&]+)=([^=&]*)\Z", pair)
         if not m:
             return None
         k, v = m.group(1), m.group(2)
-        if not re.match(rb"^(?:[^%]|%(?!00)[0-9a-fA-F]{2})*$", k) or not re.match(rb"^(?:[^%]|%(?!00)[0-9a-fA-F]{2})*$", v):
+        if not re.match(rb"^(?:[^%]|%(?!00)[0-9a-fA-F]{2})*\Z", k) or not re.match(rb"^(?:[^%]|%(?!00)[0-9a-fA-F]{2})*\Z", v):
             return None
         k = urllib.parse.unquote_to_bytes(k.replace(b"+", b" "))
         v = urllib.parse.unquote_to_bytes(v.replace(b"+", b" "))
@@ -603,7 +603,7 @@ def _ref_request(s):
             body += s[pos:pos + n]
             pos += n + 2
     elif b"Content-Length" in hs:
-        if not re.match(rb"^(0|[1-9][0-9]{0,6})$", hs[b"Content-Length"]):
+        if not re.match(rb"^(0|[1-9][0-9]{0,6})\Z", hs[b"Content-Length"]):
             return None
         n = int(hs[b"Content-Length"])
         if len(s) < pos + n:
@@ -701,12 +701,12 @@ def reference(line):
         if t[0] == "dec" and len(t) == 2:
             import urllib.parse
             raw = unhex(t[1])
-            if not re.match(rb"^(?:[^%\x00]|%[0-9a-fA-F]{2})*$", raw):
+            if not re.match(rb"^(?:[^%\x00]|%[0-9a-fA-F]{2})*\Z", raw):
                 return None
             return adler_rep(urllib.parse.unquote_to_bytes(raw))
         if t[0] == "url" and len(t) == 2:
             raw = unhex(t[1])
-            m = re.match(rb"^(?:([a-z]+)://)?([a-z0-9.\-]+)(?::([0-9]{1,5}))?(/[^\x00]*)?$", raw)
+            m = re.match(rb"^(?:([a-z]+)://)?([a-z0-9.\-]+)(?::([0-9]{1,5}))?(/[^\x00]*)?\Z", raw)
             if not m or b"://" in (m.group(4) or b""):
                 return None
             return "proto=%s host=%s port=%d path=%s" % (adler_rep(m.group(1) or b""), adler_rep(m.group(2)), int(m.group(3) or 0), adler_rep(m.group(4) or b"/"))
